@@ -271,9 +271,9 @@ func c13Reader(a *An) {
 	rd := df.Reader
 	// outer loop: the loop not contained in another
 	var outer *Loop
-	for _, l := range df.Loops {
+	for _, l := range df.ReaderLoops {
 		contained := false
-		for _, m := range df.Loops {
+		for _, m := range df.ReaderLoops {
 			if m != l && m.Blocks[l.Header] {
 				contained = true
 			}
@@ -300,11 +300,13 @@ func c13Reader(a *An) {
 			continue
 		}
 		l := c.lit(iff.Cond)
-		if l.A.Kind != AkPred || l.A.Callee == nil || !ro.isIsClosed(l.A.Callee) {
+		t, closed := ro.closedLit(l)
+		if !t {
 			continue
 		}
+		// the successor taken when the watcher is closed
 		exitIdx := 0
-		if l.Neg {
+		if !closed {
 			exitIdx = 1
 		}
 		if outer.Blocks[b.Succs[exitIdx]] {
@@ -326,21 +328,40 @@ func c13Reader(a *An) {
 	errClosedExit := false
 	var exits []string
 	nonClosedExits := 0
+	rconds, cerr := c.conds()
+	if cerr != nil {
+		a.R.fail("reader conditions: %v", cerr)
+		return
+	}
 	for _, ex := range outer.exits() {
-		lits := c.edgeLits(ex.From, ex.SuccIdx)
-		if len(lits) != 1 {
+		// the edge's own condition, with results of simple helpers expressed through their return conditions
+		ed := c.edgeCond(rconds, ex.From, ex.SuccIdx, dnfTrue())
+		if ed.isTrue() {
 			nonClosedExits++
 			exits = append(exits, "unconditional exit at "+a.P.instrPos(ex.From.Instrs[len(ex.From.Instrs)-1]))
 			continue
 		}
-		l := lits[0]
-		exits = append(exits, stripCallArgs(stripIDs(l.String())))
-		switch {
-		case l.A.Kind == AkErrIs && !l.Neg && strings.HasSuffix(stripIDs(l.A.K), "os.ErrClosed"):
-			errClosedExit = true
-		case l.A.Kind == AkPred && l.A.Callee != nil && (ro.isIsClosed(l.A.Callee) && !l.Neg || (ro.isSendError(l.A.Callee) || ro.isSendEvent(l.A.Callee)) && l.Neg):
-		default:
-			nonClosedExits++
+		for _, cj := range ed {
+			reason := ""
+			for _, l := range cj {
+				switch {
+				case l.A.Kind == AkErrIs && !l.Neg && strings.HasSuffix(stripIDs(l.A.K), "os.ErrClosed"):
+					errClosedExit = true
+					reason = "errors.Is(err, os.ErrClosed)"
+				case func() bool { t, closed := ro.closedLit(l); return t && closed }():
+					reason = "closed"
+				case l.A.Kind == AkPred && l.A.Callee != nil && (ro.isSendError(l.A.Callee) || ro.isSendEvent(l.A.Callee)) && l.Neg:
+					reason = "a send function failed"
+				case l.A.Kind == AkPred && l.A.Callee != nil && l.Neg && len(df.Chain) > 0 && l.A.Callee == df.Chain[0].Call.StaticCallee():
+					// the helper holding the decode loop reported that a send failed (its own exits are checked by C13.3d)
+					reason = "the decode helper stopped"
+				}
+			}
+			if reason == "" {
+				nonClosedExits++
+				reason = "other: " + stripCallArgs(stripIDs(cj.String()))
+			}
+			exits = append(exits, reason)
 		}
 	}
 	a.R.ob("C13.3", "reader:exits-on-ErrClosed", "a read interrupted by Close (os.ErrClosed) makes the reader exit instead of retrying", a.P.pos(rd.Pos()), errClosedExit, "loop exits: "+fmtList(uniq(exits)))
@@ -348,7 +369,7 @@ func c13Reader(a *An) {
 	contOK := true
 	var cw []string
 	for _, lt := range outer.Latches {
-		if df.Loop != nil && (df.Loop.Blocks[lt] || lt == df.Loop.Header) {
+		if df.Loop != nil && df.LoopFn == rd && (df.Loop.Blocks[lt] || lt == df.Loop.Header) {
 			continue
 		}
 		// the latch block (or a dominator inside the loop) must be the success successor of a send-function test
@@ -358,10 +379,30 @@ func c13Reader(a *An) {
 				if len(pr.Instrs) == 0 {
 					continue
 				}
-				if iff, ok := pr.Instrs[len(pr.Instrs)-1].(*ssa.If); ok {
-					l := c.lit(iff.Cond)
-					if l.A.Kind == AkPred && l.A.Callee != nil && (ro.isSendError(l.A.Callee) || ro.isSendEvent(l.A.Callee)) {
-						found = true
+				if _, ok := pr.Instrs[len(pr.Instrs)-1].(*ssa.If); ok {
+					for si, sb := range pr.Succs {
+						if sb != b {
+							continue
+						}
+						ed := c.edgeCond(rconds, pr, si, dnfTrue())
+						if ed.isTrue() || ed.isFalse() {
+							continue
+						}
+						all, _ := ed.everyConj(func(cj Conj) bool {
+							return cj.has(func(l Lit) bool {
+								if l.A.Kind != AkPred || l.A.Callee == nil || l.Neg {
+									return false
+								}
+								if ro.isSendError(l.A.Callee) || ro.isSendEvent(l.A.Callee) {
+									return true
+								}
+								// came round after the decode helper returned
+								return len(df.Chain) > 0 && l.A.Callee == df.Chain[0].Call.StaticCallee()
+							})
+						})
+						if all {
+							found = true
+						}
 					}
 				}
 			}
@@ -377,10 +418,13 @@ func c13Reader(a *An) {
 	a.R.ob("C13.3", "reader:continue-only-after-send", "the reader goes round its loop without decoding only after a send function succeeded (a closed watcher cannot spin)", a.P.pos(rd.Pos()), contOK, strings.Join(cw, "; "))
 	// (d) inner loops: only the decode loop
 	inner := 0
-	for _, l := range df.Loops {
+	for _, l := range df.ReaderLoops {
 		if l != outer {
 			inner++
 		}
+	}
+	if df.LoopFn != rd {
+		inner += len(df.Loops)
 	}
 	a.R.ob("C13.3", "reader:only-decode-loop-inside", "the only loop inside the reader's outer loop is the decode loop (whose offset strictly advances, C01.1)", a.P.pos(rd.Pos()), inner == 1 && df.Loop != outer, sprintf("%d inner loop(s)", inner))
 	c01Loop(a, df, "C13.3d")
